@@ -1,13 +1,18 @@
 ----------------------------- MODULE MC_Hexital -----------------------------
 (***************************************************************************)
 (* C08 on the specification: the candle manager a Hexital builds for a     *)
-(* member on another timeframe -- from copies of the default manager's     *)
-(* candles (construction, or add_indicator later) and then fed every       *)
-(* appended chunk alongside the default manager -- always holds exactly    *)
-(* the candles of a standalone manager with the same effective             *)
-(* configuration fed the whole stream; and the default manager keeps the   *)
-(* original OHLCV recoverable.  All streams over a gap alphabet x all      *)
-(* chunkings x Hexital-level timeframe / fill / Heikin-Ashi / lifespan.    *)
+(* member on another timeframe -- at construction from copies of the       *)
+(* candles as they were given, by add_indicator later from copies of what  *)
+(* the default manager holds by then -- and then fed every appended chunk  *)
+(* alongside the default manager, holds exactly the candles of a           *)
+(* standalone manager with the same effective configuration fed the whole  *)
+(* stream; and the default manager keeps the original OHLCV recoverable.   *)
+(* All streams over a gap alphabet x all chunkings x Hexital-level         *)
+(* timeframe / fill / Heikin-Ashi / lifespan.                              *)
+(* Deviation from_default: at construction the member starts from the      *)
+(* default manager's candles too (as shipped before the repair): breaks    *)
+(* the invariant under a lifespan (K01) and under gap filling (K02) --     *)
+(* both were found on this model / by the trace check and repaired.        *)
 (***************************************************************************)
 EXTENDS Manager, TLC
 
@@ -25,9 +30,10 @@ Extend(s, gs) ==
   ELSE LET ts == IF s = <<>> THEN Head(gs) ELSE Last(s).ts + Head(gs)
        IN Extend(Append(s, CandleNo(Len(s) + 1, ts)), Tail(gs))
 
-VARIABLES hcfg, mtf, raw, dflt, mem, has, ok, pre
-vars == <<hcfg, mtf, raw, dflt, mem, has, ok, pre>>
-\* has: the member's manager exists (created at construction or by a later add_indicator)
+VARIABLES hcfg, mtf, raw, dflt, mem, has, ok, pre, late
+vars == <<hcfg, mtf, raw, dflt, mem, has, ok, pre, late>>
+\* has: the member's manager exists (created at construction or by a later add_indicator: late)
+DevFromDefault == {"from_default"}
 
 MemCfg == [hcfg EXCEPT !.tf = mtf]
 
@@ -43,7 +49,9 @@ Init ==
         IN /\ raw = s /\ pre = n /\ dflt = d.cs
            /\ \E now \in BOOLEAN :
                  /\ has = now
-                 /\ IF now THEN (LET m == Create(d.cs) IN mem = m.cs /\ ok = (d.ok /\ m.ok))
+                 /\ late = FALSE
+                 /\ IF now THEN (LET m == IF "from_default" \in Dev THEN Create(d.cs) ELSE Create(s)
+                                 IN mem = m.cs /\ ok = (d.ok /\ m.ok))
                     ELSE mem = <<>> /\ ok = d.ok
 
 AppendStep ==
@@ -55,13 +63,13 @@ AppendStep ==
               m   == IF has THEN MgrAppend(mem, new, MemCfg) ELSE [ok |-> TRUE, err |-> "", cs |-> mem]
               d   == MgrAppend(dflt, new, hcfg)
           IN raw' = all /\ dflt' = d.cs /\ mem' = m.cs /\ ok' = (d.ok /\ m.ok)
-  /\ UNCHANGED <<hcfg, mtf, has, pre>>
+  /\ UNCHANGED <<hcfg, mtf, has, pre, late>>
 
 \* add_indicator(member with timeframe mtf) after some candles have arrived
 AddLater ==
   /\ ok /\ ~has
   /\ LET m == Create(dflt) IN mem' = m.cs /\ ok' = m.ok
-  /\ has' = TRUE
+  /\ has' = TRUE /\ late' = TRUE
   /\ UNCHANGED <<hcfg, mtf, raw, dflt, pre>>
 
 Next == AppendStep \/ AddLater
@@ -70,16 +78,17 @@ Spec == Init /\ [][Next]_vars
 \* the standalone manager of the same effective configuration over the whole stream
 Standalone == MgrNew(raw, MemCfg).cs
 
-\* C08 (K01 excluded: with a lifespan the default candles a later manager starts from are already
-\* trimmed -- the open known finding; and a member can only be as fine as what the default keeps)
-\* K02 excluded likewise: with Hexital-level gap filling the default candles contain inserted
-\* candles, and a coarser member built from them merges those as if they were trades (found by
-\* TLC on this model, confirmed on the code, recorded as an open finding)
+\* C08: a member registered at construction equals its standalone twin under EVERY Hexital-level setting;
+\* one added later starts from what the default manager holds by then -- with a lifespan that is already
+\* trimmed, with gap filling it contains inserted candles: those two late classes are outside the claim
 C08_MemberEqStandalone ==
-  (ok /\ has /\ hcfg.life < 0 /\ ~hcfg.fill) => ShellSeq(mem) = ShellSeq(Standalone)
-\* the two excluded classes do fail on the model (kept as non-vacuity checks)
+  (ok /\ has /\ (late => (hcfg.life < 0 /\ ~hcfg.fill))) => ShellSeq(mem) = ShellSeq(Standalone)
+\* the two excluded late classes do fail on the model (kept as non-vacuity checks); with the deviation
+\* from_default the same two invariants fail for members registered at construction (K01, K02 as shipped)
 K01_Holds == (ok /\ has /\ ~hcfg.fill) => ShellSeq(mem) = ShellSeq(Standalone)
 K02_Holds == (ok /\ has /\ hcfg.life < 0) => ShellSeq(mem) = ShellSeq(Standalone)
+\* (members registered at construction only: must hold now, must fail with the deviation)
+C08_AtConstruction == (ok /\ has /\ ~late) => ShellSeq(mem) = ShellSeq(Standalone)
 
 \* the default manager shows what its own configuration defines, raw values recoverable
 C08_BaseKeepsOHLCV ==
